@@ -5,8 +5,8 @@
 //!      | `purge:<id>:<mask>`
 //!      | `at:…` `dt:…` `im:…` `rm:…` (document operations of c04.rs, to set up references)
 //!      | `S`  (print document, key store, key-id store)
-//!   mask = five characters 0/1: fail every call of JwkStorage::generate, JwkStorage::delete,
-//!          KeyIdStorage::insert_key_id, KeyIdStorage::get_key_id, KeyIdStorage::delete_key_id during this operation
+//!   mask = eight characters 0/1: fail every call of JwkStorage::generate, JwkStorage::delete,
+//!          KeyIdStorage::insert_key_id, get_key_id, delete_key_id, JwkStorage::exists, sign, insert during this operation
 //! Keys are numbered in the order of generation; a generated method's key material prints as 1000 + key number, a
 //! fragment taken from the JWK kid as 100 + key number.
 //! Implementation-side oracle after every gen/purge: success ⇒ complete (method resolves, key exists, key id recorded,
@@ -52,6 +52,10 @@ struct Plan {
   insert_kid: bool,
   get_kid: bool,
   delete_kid: bool,
+  // calls the two operations do not make at the pinned commit; a change that starts making them is exposed to their failure too
+  exists: bool,
+  sign: bool,
+  insert_key: bool,
 }
 
 thread_local! {
@@ -90,9 +94,15 @@ impl JwkStorage for FK {
     Ok(out)
   }
   async fn insert(&self, jwk: Jwk) -> KeyStorageResult<KeyId> {
+    if PLAN.with(|p| p.borrow().insert_key) {
+      return Err(kerr());
+    }
     self.0.insert(jwk).await
   }
   async fn sign(&self, key_id: &KeyId, data: &[u8], public_key: &Jwk) -> KeyStorageResult<Vec<u8>> {
+    if PLAN.with(|p| p.borrow().sign) {
+      return Err(kerr());
+    }
     self.0.sign(key_id, data, public_key).await
   }
   async fn delete(&self, key_id: &KeyId) -> KeyStorageResult<()> {
@@ -102,6 +112,9 @@ impl JwkStorage for FK {
     self.0.delete(key_id).await
   }
   async fn exists(&self, key_id: &KeyId) -> KeyStorageResult<bool> {
+    if PLAN.with(|p| p.borrow().exists) {
+      return Err(kerr());
+    }
     self.0.exists(key_id).await
   }
 }
@@ -196,10 +209,10 @@ impl DocLike for IotaDocument {
 
 fn parse_mask(t: &str) -> Option<Plan> {
   let b: Vec<bool> = t.chars().map(|c| c == '1').collect();
-  if b.len() != 5 || !t.chars().all(|c| c == '0' || c == '1') {
+  if b.len() != 8 || !t.chars().all(|c| c == '0' || c == '1') {
     return None;
   }
-  Some(Plan { generate: b[0], delete_key: b[1], insert_kid: b[2], get_kid: b[3], delete_kid: b[4] })
+  Some(Plan { generate: b[0], delete_key: b[1], insert_kid: b[2], get_kid: b[3], delete_kid: b[4], exists: b[5], sign: b[6], insert_key: b[7] })
 }
 
 fn err_kind(e: &SErr) -> &'static str {
@@ -507,8 +520,15 @@ pub fn run(args: &[&str]) -> String {
 }
 
 // ---------------------------------------------------------------------------------------------------------
+/// `bits`: the five calls the operations make (generate, delete, insert_key_id, get_key_id, delete_key_id);
+/// `extra`: also fail exists / sign / insert
+fn mask2(bits: u32, extra: bool) -> String {
+  let mut m: String = (0..5).map(|i| if bits >> (4 - i) & 1 == 1 { '1' } else { '0' }).collect();
+  m.push_str(if extra { "111" } else { "000" });
+  m
+}
 fn mask(bits: u32) -> String {
-  (0..5).map(|i| if bits >> (4 - i) & 1 == 1 { '1' } else { '0' }).collect()
+  mask2(bits, false)
 }
 
 pub fn gen(thorough: bool, seed: u64, out: &mut impl Write) {
@@ -530,7 +550,10 @@ pub fn gen(thorough: bool, seed: u64, out: &mut impl Write) {
           for m in 0..8u32 {
             // bits: generate, deleteKey, insertKid
             let bits = ((m >> 2) & 1) << 4 | ((m >> 1) & 1) << 3 | (m & 1) << 2;
-            writeln!(out, "C09 hist {}{} | gen:{}:{}:{} S gen:{}:{}:00000 S", kind, start, sc, fr, mask(bits), sc, fr).unwrap();
+            writeln!(out, "C09 hist {}{} | gen:{}:{}:{} S gen:{}:{}:00000000 S", kind, start, sc, fr, mask(bits), sc, fr).unwrap();
+            if sc == "vm" || sc == "3" {
+              writeln!(out, "C09 hist {}{} | gen:{}:{}:{} S gen:{}:{}:00000000 S", kind, start, sc, fr, mask2(bits, true), sc, fr).unwrap();
+            }
           }
         }
       }
@@ -543,15 +566,15 @@ pub fn gen(thorough: bool, seed: u64, out: &mut impl Write) {
           for m in 0..16u32 {
             // bits: deleteKey, insertKid, getKid, deleteKid
             let bits = ((m >> 3) & 1) << 3 | ((m >> 2) & 1) << 2 | ((m >> 1) & 1) << 1 | (m & 1);
-            let mut ops = vec![format!("gen:{}:1:00000", sc), "gen:vm:2:00000".to_string()];
+            let mut ops = vec![format!("gen:{}:1:00000000", sc), "gen:vm:2:00000000".to_string()];
             for k in 0..n {
               ops.push(format!("at:F:0.0.1:{}", [0, 2, 4][k]));
             }
             ops.push("S".into());
-            ops.push(format!("purge:0.0.1:{}", mask(bits)));
+            ops.push(format!("purge:0.0.1:{}", mask2(bits, m % 2 == 1 && n == 1)));
             ops.push("S".into());
             // a second, fault-free purge shows whether the first left the system usable
-            ops.push("purge:0.0.1:00000".into());
+            ops.push("purge:0.0.1:00000000".into());
             ops.push("S".into());
             writeln!(out, "C09 hist {}{} | {}", kind, start, ops.join(" ")).unwrap();
           }
@@ -575,11 +598,12 @@ pub fn gen(thorough: bool, seed: u64, out: &mut impl Write) {
     let mut ops: Vec<String> = vec![];
     for _ in 0..len {
       let mk = if r.chance(1, 2) { 0 } else { r.below(32) as u32 };
+      let ex = r.chance(1, 4);
       match r.below(10) {
-        0..=3 => ops.push(format!("gen:{}:{}:{}", r.pick(&scopes), r.pick(&["1", "2", "3", "~", "7", "X"]), mask(mk))),
+        0..=3 => ops.push(format!("gen:{}:{}:{}", r.pick(&scopes), r.pick(&["1", "2", "3", "~", "7", "X"]), mask2(mk, ex))),
         4..=5 => ops.push(format!("at:{}:0.0.{}:{}", r.pick(&["F", "H"]), 1 + r.below(3), r.below(5))),
         6 => ops.push(format!("dt:F:0.0.{}:{}", 1 + r.below(3), r.below(5))),
-        _ => ops.push(format!("purge:0.0.{}:{}", 1 + r.below(3), mask(mk))),
+        _ => ops.push(format!("purge:0.0.{}:{}", 1 + r.below(3), mask2(mk, ex))),
       }
       ops.push("S".into());
     }
